@@ -46,7 +46,7 @@ func c17Run(c c17Case, r *hx.Rec) error {
 	return nil
 }
 
-var c17PatSyms = []string{"a", "b", "/", "*", "?", "[", "]", "^", "-", "\\"}
+var c17PatSyms = []string{"a", "b", "/", "*", "?", "[", "]", "^", "-", "\\", "!"}
 
 func enumStrings(syms []string, maxLen int) []string {
 	out := []string{""}
@@ -66,10 +66,10 @@ func enumStrings(syms []string, maxLen int) []string {
 
 func c17Exhaustive(t *testing.T) {
 	patLen, nameLen := 5, 3
-	nameSyms := []string{"a", "b", "/", "]", "☺"}
+	nameSyms := []string{"a", "b", "/", "]", "☺", "!"}
 	if hx.Thorough() {
 		patLen, nameLen = 6, 4
-		nameSyms = []string{"a", "b", "/", "]", "☺", "-"}
+		nameSyms = []string{"a", "b", "/", "]", "☺", "-", "!"}
 	}
 	names := enumStrings(nameSyms, nameLen)
 	nameSet := intoto.NewSet(names...)
@@ -135,13 +135,13 @@ func c17Exhaustive(t *testing.T) {
 	_ = idx
 	rec("", 0)
 	hx.AccountBulk("exhaustive",
-		fmt.Sprintf("all patterns of length <=%d over {a b / * ? [ ] ^ - \\} x all names of length <=%d over {%s}, sharded by pattern index; non-trivial = malformed pattern or well-formed pattern with a metacharacter; pairs are distinct by construction", patLen, nameLen, strings.Join(nameSyms, " ")),
+		fmt.Sprintf("all patterns of length <=%d over {a b / * ? [ ] ^ - \\ !} x all names of length <=%d over {%s}, sharded by pattern index; non-trivial = malformed pattern or well-formed pattern with a metacharacter; pairs are distinct by construction", patLen, nameLen, strings.Join(nameSyms, " ")),
 		evals, nontrivial, classes, samples, failures == 0)
 }
 
 func c17Gen(t *rapid.T) c17Case {
-	patAtoms := []string{"a", "b", "c", "/", "*", "*", "?", "[", "]", "^", "-", "\\", ".", "é", "☺", "😀", "ab", "[a-c]", "[^a]", "[\\]]", "**", "?*", "\\*", "[☺-😀]", "[a-", "dir/"}
-	nameAtoms := []string{"a", "b", "c", "/", "]", "-", "^", "*", "?", "[", "\\", ".", "é", "☺", "😀", "ab", "dir/", "abc"}
+	patAtoms := []string{"a", "b", "c", "/", "*", "*", "?", "[", "]", "^", "-", "\\", ".", "!", "[!a]", "[!-/]", "[\\]*]", "{a,b}", "~", "#", "é", "☺", "😀", "ab", "[a-c]", "[^a]", "[\\]]", "**", "?*", "\\*", "[☺-😀]", "[a-", "dir/"}
+	nameAtoms := []string{"a", "b", "c", "/", "]", "-", "^", "*", "?", "[", "\\", ".", "!", "{", "}", ",", "~", "#", "é", "☺", "😀", "ab", "dir/", "abc"}
 	var p, n strings.Builder
 	for _, a := range rapid.SliceOfN(rapid.SampledFrom(patAtoms), 0, 12).Draw(t, "pattern") {
 		p.WriteString(a)
